@@ -500,6 +500,8 @@ def evaluate(res0, tag, projects_path, out_path, mbin, d, stats, open_kf):
                     stats["verdict_" + k] += v
                 stats["step_" + st["what"]] += 1
                 stats["third_party_groups" if third else "ordinary_groups"] += 1
+                if sum(1 for dd in gv.decls.values() if dd["kind"] == "design") > 2:
+                    stats["groups_with_several_secondary_units"] += 1
                 if o.get("layered"):
                     stats["groups_under_layered_config"] += 1
                 if pj.get("libnames") and pj["libnames"][gv.lib] != pj["libnames"][gv.lib].lower():
